@@ -677,7 +677,7 @@ def prove(hyps, goal, timeout_ms=10000, rounds=5, want_model=False, fallbacks=Tr
             except Exception:
                 break
         qs = z3.Solver()            # the native quantifier engine on the small named subset
-        qs.set('timeout', 3000)
+        qs.set('timeout', min(timeout_ms, 8000))
         qs.set('random_seed', 0)
         qs.add(subf)
         qs.add(z3.Not(goal))
